@@ -8,7 +8,8 @@
      <id> PRIM chachapoly|gcm <key> <nonce12> <pt> <aad>   -> <id> <sealed>
      <id> PRIMOPEN chachapoly|gcm <key> <nonce12> <ct> <aad> -> <id> <pt> | fail
      <id> SESS <m> <configured limit dec, may be <= 0> <unordered 0|1> <op>...
-        a Session built by make_session with that limit, one stream (sequence counter from 0);
+        a Session built by make_session with that limit, one stream (sequence counter from 0, advanced
+        only by frames that were encoded);
         the padding lengths are the ones read off the wire (or, for a refused notice, off the
         log of bytes drawn), everything else is predicted:
           W:<len>:<pad,pad,..|->           Stream.Write of len bytes
